@@ -40,31 +40,40 @@ func init() {
 		},
 	}
 	var c03quick, c03all []int
-	for pi := 0; pi < 25; pi++ {
+	for pi := 0; pi < 28; pi++ {
 		c03quick = append(c03quick, pi*8+(pi%4))
 		for ci := 0; ci < 4; ci++ {
 			c03all = append(c03all, pi*8+ci)
+		}
+	}
+	// UnescapePath: the client percent-encodes one byte of the path
+	var c03unq, c03una []int
+	for _, pi := range []int{1, 5, 8, 10, 17, 19} {
+		c03unq = append(c03unq, pi*8+4+(pi%4))
+		for ci := 4; ci < 8; ci++ {
+			c03una = append(c03una, pi*8+ci)
 		}
 	}
 	props["C03"] = PropSpec{
 		ID: "C03",
 		Runs: []HarnessRun{
 			{Rel: ".", Dir: "fiber", Entry: "VH_C03_complete", Cases: tierCases(c03quick, c03all), Reach: []string{"matched"}, MaxPaths: 60000},
+			{Rel: ".", Dir: "fiber", Entry: "VH_C03_complete", Cases: tierCases(c03unq, c03una), Reach: []string{"matched", "encoded"}, MaxPaths: 60000},
 			{Rel: ".", Dir: "fiber", Entry: "VH_C03_rpm", Cases: tierCases(c03quick, c03all), Reach: []string{"ran", "not-ran"}, MaxPaths: 60000},
 		},
 		Bounds: map[string]string{
-			"quick":    "25 delimited patterns (one routing config each, rotating over the 4 CaseSensitive x StrictRouting configs); every parameter value symbolic of length 0..2 (named and + >= 1); RoutePatternMatch vs dispatch on fully symbolic paths of the listed lengths (<= 9)",
-			"thorough": "25 delimited patterns x 4 routing configs, same value/path bounds",
+			"quick":    "28 delimited patterns (one routing config each, rotating over the 4 CaseSensitive x StrictRouting configs); every parameter value symbolic of length 0..2 (named and + >= 1); 6 patterns also with UnescapePath and one byte of the request path (any position but the first) percent-encoded; RoutePatternMatch vs dispatch on fully symbolic paths of the listed lengths (<= 14)",
+			"thorough": "28 delimited patterns x 4 routing configs, 6 patterns x 4 UnescapePath configs, same value/path bounds",
 		},
 		Assumptions: []string{
 			"values are printable ASCII without '?', '#', '%'; named values without '/'",
 			"side condition of the statement read strictly: no additional occurrence (case-folded when case-insensitive) of a literal that follows a parameter, nor of that literal without its trailing slashes",
-			"UnescapePath (percent-decoding) is not exercised by this harness",
+			"UnescapePath: exactly one percent-encoded byte (upper-case hex digits); RoutePatternMatch is not compared under UnescapePath",
 			"html.EscapeString and fasthttp.normalizePath stubbed (404 text / normalised path not observed by the router)",
 		},
 	}
 	var c01quick, c01all []int
-	for ti := 0; ti < 16; ti++ {
+	for ti := 0; ti < 19; ti++ {
 		c01quick = append(c01quick, ti*16+(ti%4))
 		for ci := 0; ci < 4; ci++ {
 			c01all = append(c01all, ti*16+ci, ti*16+8+ci)
@@ -77,12 +86,12 @@ func init() {
 			{Rel: ".", Dir: "fiber", Entry: "VH_C01_dispatch", Cases: tierCases(c01quick, c01all), Reach: []string{"handled", "404", "405"}, MaxPaths: 60000},
 		},
 		Bounds: map[string]string{
-			"quick":    "16 route tables (<= 4 registrations: literal/param/optional/star routes, Use prefixes, groups, duplicates, rewrite and method-override middleware, multi-handler routes, non-ASCII first segment), one routing config each + 4 custom-context cases; request method from the table's list, path fully symbolic at the listed lengths (<= 7)",
-			"thorough": "16 tables x 4 routing configs x {default, custom context}",
+			"quick":    "19 route tables (<= 5 registrations: literal/param/optional/star routes, Use prefixes, groups, duplicates, rewrite and method-override middleware, multi-handler and multi-method registrations followed by same-path neighbours, escaped pattern characters, non-ASCII first segment), one routing config each + 4 custom-context cases; request method from the table's list, path fully symbolic at the listed lengths (<= 7)",
+			"thorough": "19 tables x 4 routing configs x {default, custom context}",
 		},
 		Assumptions: []string{
 			"request path bytes printable ASCII without '?', '#', '%' (table 13: any byte > 0x20 except DEL), single leading '/'",
-			"per-route matching (Route.match) is taken as given: this property is about order, index transparency, overrides and 404/405",
+			"per-route matching (Route.match) is taken as given, on the route object each registration produces alone in a fresh app: this property is about order, merging of neighbours, index transparency, overrides and 404/405",
 			"html.EscapeString and fasthttp.normalizePath stubbed (404 text / normalised path not observed by the router)",
 		},
 	}
@@ -126,14 +135,14 @@ func init() {
 		},
 	}
 	var c04quick, c04all []int
-	for ti := 0; ti < 7; ti++ {
+	for ti := 0; ti < 9; ti++ {
 		c04quick = append(c04quick, ti*4+(ti%4))
 		for k := 0; k < 4; k++ {
 			c04all = append(c04all, ti*4+k)
 		}
 	}
 	c04quick = append(c04quick, 6*4+1, 6*4+3, 3*4+2, 0*4+3, 2*4+0, 1*4+0, 100+6*4+3, 100+3*4+2, 100+0*4+1)
-	for ti := 0; ti < 7; ti++ {
+	for ti := 0; ti < 9; ti++ {
 		for k := 1; k < 4; k++ {
 			c04all = append(c04all, 100+ti*4+k)
 		}
@@ -144,8 +153,8 @@ func init() {
 			{Rel: ".", Dir: "fiber", Entry: "VH_C04_mount", Cases: tierCases(c04quick, c04all), Reach: []string{"handlers-ran", "nothing-ran"}, MaxPaths: 100000},
 		},
 		Bounds: map[string]string{
-			"quick":    "7 composition trees (mount before/after sibling routes, nested mount, mount from a group, '/' and trailing-slash prefixes, parameterised prefix, sub-app '/*', upper-case paths), one routing config each (+4); request method from the tree's list, path fully symbolic at the listed lengths (<= 8)",
-			"thorough": "7 trees x 4 routing configs (CaseSensitive x StrictRouting, shared by parent and sub-apps)",
+			"quick":    "9 composition trees (mount before/after sibling routes, nested mount, mount from a group, '/' and trailing-slash prefixes, children spelled without a leading slash, parameterised prefix, sub-app '/*', upper-case paths), one routing config each (+4), each built three ways: real mounting, groups, flat full paths; request method from the tree's list, path fully symbolic at the listed lengths (<= 8)",
+			"thorough": "9 trees x 4 routing configs (CaseSensitive x StrictRouting, shared by parent and sub-apps)",
 		},
 		Assumptions: []string{
 			"sub-apps use either the parent's routing configuration or the default one (cases >= 100); the group world always uses the parent's",
@@ -177,21 +186,22 @@ func init() {
 		},
 	}
 	var c10quick, c10all []int
-	for ci := 0; ci < 14; ci++ {
+	for ci := 0; ci < 15; ci++ {
 		c10quick = append(c10quick, ci*4+(ci%4))
 		for k := 0; k < 4; k++ {
 			c10all = append(c10all, ci*4+k)
 		}
 	}
-	c10quick = append(c10quick, 6*4+0, 7*4+0, 3*4+3, 8*4+3, 2*4+1)
+	c10quick = append(c10quick, 6*4+0, 7*4+0, 3*4+3, 8*4+3, 2*4+1, 14*4+3)
 	props["C10"] = PropSpec{
 		ID: "C10",
 		Runs: []HarnessRun{
 			{Rel: ".", Dir: "fiber", Entry: "VH_C10_trust", Cases: tierCases(c10quick, c10all), Reach: []string{"trusted", "untrusted"}, MaxPaths: 100000},
+			{Rel: ".", Dir: "fiber", Entry: "VH_C10_list", Cases: tierCases([]int{0, 1, 2}, []int{0, 1, 2, 3}), Reach: []string{"listed"}, MaxPaths: 100000},
 		},
 		Bounds: map[string]string{
-			"quick":    "14 proxy configurations (empty set, single address, CIDR /8 /24 /31, v6 /32, each class flag, combinations, IP validation, v4-mapped and v6 peers), one forwarding-header family each (+5): peer address fully symbolic (4 bytes; v6: 4 symbolic bytes of a 16-byte address), forwarded value a symbolic string of length 1..3",
-			"thorough": "14 configurations x 4 header families",
+			"quick":    "15 proxy configurations (empty set, single v4 and v6 address, CIDR /8 /24 /31, v6 /32, each class flag, combinations, IP validation, v4-mapped and v6 peers), one forwarding-header family each (+6): peer address fully symbolic (4 bytes; v6: 4 symbolic bytes of a 16-byte address), forwarded value a symbolic string of length 1..3; validated client IP from a list: an invalid symbolic entry (1..3 bytes over [0-9a-f.:]) followed by a valid v4 or v6 entry",
+			"thorough": "15 configurations x 4 header families; list harness x 2 separators x 2 families",
 		},
 		Assumptions: []string{
 			"TrustProxy is enabled in every case; TLS off (scheme of the connection is http)",
@@ -231,7 +241,7 @@ func init() {
 			"concurrent use of one context and state the application shares on purpose are outside",
 		},
 	}
-	c06all := rangeInts(0, 18)
+	c06all := rangeInts(0, 22)
 	for _, k := range []int{0, 3, 4, 5, 9, 11} {
 		c06all = append(c06all, 100+k)
 	}
@@ -241,7 +251,7 @@ func init() {
 			{Rel: ".", Dir: "fiber", Entry: "VH_C06_immutable", Cases: tierCases(c06all, c06all), Reach: []string{"checked"}, MaxPaths: 100000},
 		},
 		Bounds: map[string]string{
-			"quick":    "18 accessors (Params, generic Params, Path, OriginalURL, Protocol, Query, Queries, Get, GetReqHeaders, Cookies, Host, Hostname, Body, Body with an unsupported Content-Encoding, BodyRaw, BaseURL, Method, Route().Path) with Immutable on: request 1 has symbolic parameter/query/header/cookie/body tokens, then a second fully symbolic request is served on the same fasthttp.RequestCtx and pooled context and the kept value must still equal what request 1 contained; 6 accessors with Immutable off (correct inside the handler)",
+			"quick":    "22 accessors (Params, generic Params, Path, OriginalURL, Protocol, Query, Queries, Get, GetReqHeaders, Cookies, Host, Hostname, Subdomains, Body, Body with an unsupported Content-Encoding, BodyRaw, BaseURL, Method, Route().Path, IP from the proxy header with and without validation, IPs) with Immutable on: request 1 has symbolic parameter/query/header/cookie/body tokens, then a second fully symbolic request is served on the same fasthttp.RequestCtx and pooled context and the kept value must still equal what request 1 contained; 6 accessors with Immutable off (correct inside the handler)",
 			"thorough": "same as quick",
 		},
 		Assumptions: []string{
